@@ -84,3 +84,9 @@ Definition listed_b (pos : mat) (probes : list Z) (nc ncw p : nat) (row : list Z
 
 (* raw indices of a merged dataset: the concatenation of the probes' own channel maps *)
 Definition rawind_b (orig : list (list Z)) (raw : list Z) : bool := zl_eq raw (concat orig).
+
+(* what the loader leaves in n_clusters when some spike changed cluster: max(spike_clusters) + 1
+   (_load_data: self.n_clusters = self.spike_clusters.max() + 1; C08_merge_map_loaded).  When none did, n_clusters =
+   n_templates = the number of cluster waveforms, which wf_alf (the assert of alf.py) already demands. *)
+Definition Loaded_ncl (x : alf_in) : Prop := x_sc x <> x_st x -> x_ncl x = lmax (x_sc x) + 1.
+Definition loaded_ncl_b (x : alf_in) : bool := negb (curated (x_st x) (x_sc x)) || (x_ncl x =? lmax (x_sc x) + 1).
